@@ -24,8 +24,10 @@ RULE = ("(schedules) per threading layer {workqueue, omp} in separate processes:
         "analyzer: plan() must return the same object with unchanged content, every result must "
         "equal a fresh analyzer's; random sequences over {read attribute, get_measurement, "
         "to_dataframe, get_rms} on one result: every cached attribute keeps identity and content "
-        "and equals the value on a fresh twin, whatever was read before.  Distinct by case "
-        "descriptor.")
+        "and equals the value on a fresh twin, whatever was read before; (round trips) an analysis, "
+        "then 1-4 analyses differing in one respect (band, psll, overlap, Lmin, order, window, other "
+        "data, a shorter record), then the first again with a new analyzer: same grid, "
+        "segmentation and statistics.  Distinct by case descriptor.")
 ASSUMPTIONS = [
     "a race needs the losing interleaving to occur: absence of a report is 'held on the schedules "
     "observed' (sensitivity measured: a hoisted shared scratch buffer is seen in 12/20 runs)",
@@ -33,6 +35,7 @@ ASSUMPTIONS = [
     "the workqueue layer aborts on concurrent entry by design)",
 ]
 DECIDING_COUNTERS = ["schedule_runs[workqueue]", "schedule_runs[omp]", "analyzer_histories",
+                     "options_roundtrips",
                      "result_histories", "plan_identity_checks", "cached_attribute_checks",
                      "reference_checks"]
 MIN_NONTRIVIAL = {"quick": 150, "thorough": 2500}
@@ -363,6 +366,95 @@ def analyzer_history(rec, seedt):
             rec.violation("plan-depends-on-history", "the plan differs from a fresh analyzer's plan")
 
 
+def options_roundtrip(rec, seedt):
+    """Process-level history: an analysis A, then one to four OTHER analyses that differ from it in
+    one respect (a band, a slightly different psll, another overlap / Lmin / order / window, other
+    data of the same length, the record one sample shorter), then A again with a new analyzer: the
+    second A must reproduce the first - raw statistics, bin grid and segmentation."""
+    from speckit.analysis import SpectrumAnalyzer
+    rng = gen.rng_for(*seedt)
+    N = int(rng.integers(300, 3000))
+    cross = bool(rng.random() < 0.5)
+    x = gen.record(rng, N, str(rng.choice(["white", "walk", "ar1"])))
+    data = np.vstack([x, gen.second_channel(rng, x, "mixed")]) if cross else x
+    win = api.random_window(rng)
+    kw = dict(order=int(rng.choice([-1, 0, 1, 2])), scheduler=str(rng.choice(gen.SCHEDS)),
+              backend=str(rng.choice(["numba", "numpy"])), Jdes=int(rng.choice([8, 30, 80])),
+              Kdes=int(rng.choice([3, 20])),
+              olap=("default" if rng.random() < 0.4 else float(rng.choice([0.0, 0.3, 0.5, 0.75]))))
+    kw.update(api.win_args(win))
+    fs = float(rng.choice([1.0, 50.0]))
+    desc = {"kind": "options-roundtrip", "seed": list(seedt), "N": N, "cross": cross,
+            "backend": kw["backend"], "sched": kw["scheduler"], "win": win}
+    rec.case(desc, nontrivial=True)
+
+    def run(data_, kw_):
+        r = SpectrumAnalyzer(data_, fs, **kw_).compute()
+        return r, raw(r), (np.asarray(r.f).copy(), np.asarray(r.L).copy(),
+                           [np.asarray(d).copy() for d in r.D])
+    try:
+        r0, raw0, grid0 = run(data, kw)
+    except (ValueError, RuntimeError) as e:
+        rec.blocked(f"rejected: {str(e)[:60]}")
+        return
+    f0 = grid0[0]
+    kinds = []
+    for _ in range(int(rng.integers(1, 5))):
+        v = str(rng.choice(["band", "band", "psll", "olap", "Lmin", "order", "win", "data", "shorter"]))
+        kv, dv = dict(kw), data
+        if v == "band" and len(f0) >= 3:
+            a = int(rng.integers(0, len(f0)))
+            b = int(rng.integers(a, len(f0)))
+            kv["band"] = (float(f0[a]), float(f0[b]))
+        elif v == "psll" and kw.get("win") == "kaiser" and "psll" in kw:
+            kv["psll"] = kw["psll"] + float(rng.choice([1.0, -1.0, 0.3, 0.01]))
+        elif v == "olap":
+            kv["olap"] = float(rng.choice([0.0, 0.25, 0.6, 0.9]))
+        elif v == "Lmin":
+            kv["Lmin"] = int(rng.integers(2, max(3, N // 4)))
+        elif v == "order":
+            kv["order"] = int((kw["order"] + 2) % 4 - 1)
+        elif v == "win":
+            kv.update(api.win_args(api.random_window(rng)))
+        elif v == "data":
+            x2 = gen.record(rng, N, "white")
+            dv = np.vstack([x2, gen.second_channel(rng, x2, "independent")]) if cross else x2
+        elif v == "shorter":
+            dv = np.ascontiguousarray(data[..., :N - int(rng.integers(1, 8))])
+        else:
+            continue
+        kinds.append(v)
+        try:
+            run(dv, kv)
+        except (ValueError, RuntimeError):
+            pass
+        except Exception as e:
+            rec.violation(f"raises:{type(e).__name__}", f"variant '{v}' after the base analysis: "
+                                                        f"{type(e).__name__}: {e}")
+            return
+    try:
+        r1, raw1, grid1 = run(data, kw)
+    except Exception as e:
+        rec.violation("options-roundtrip-raises", f"the base analysis repeated after {kinds} "
+                                                  f"raised {type(e).__name__}: {e}")
+        return
+    rec.count("options_roundtrips")
+    rec.distinct("roundtrip_variants", "+".join(sorted(set(kinds))))
+    same_grid = (grid0[0].shape == grid1[0].shape and np.array_equal(grid0[0], grid1[0])
+                 and np.array_equal(grid0[1], grid1[1])
+                 and all(np.array_equal(a, b) for a, b in zip(grid0[2], grid1[2])))
+    if not same_grid:
+        rec.violation("analysis-depends-on-earlier-analyses",
+                      f"after other analyses ({kinds}) the same options and data give "
+                      f"{len(grid1[0])} bins / another segmentation (first time: {len(grid0[0])} bins)")
+        return
+    bitwise, worst = cmp_raw(raw0, raw1)
+    if not (worst <= 1e-12):
+        rec.violation("analysis-depends-on-earlier-analyses",
+                      f"after other analyses ({kinds}) the same options and data give statistics "
+                      f"that differ by {worst:.3e}")
+
+
 def result_history(rec, seedt):
     from speckit.analysis import SpectrumAnalyzer
     rng = gen.rng_for(*seedt)
@@ -448,6 +540,7 @@ def run_shard(params, rec):
             break
         analyzer_history(rec, [params["seed"], params["shard"], "an", i])
         result_history(rec, [params["seed"], params["shard"], "res", i])
+        options_roundtrip(rec, [params["seed"], params["shard"], "rt", i])
 
 
 def replay(case, rec):
@@ -456,6 +549,8 @@ def replay(case, rec):
         analyzer_history(rec, case["seed"])
     elif k == "result-history":
         result_history(rec, case["seed"])
+    elif k == "options-roundtrip":
+        options_roundtrip(rec, case["seed"])
     else:
         schedule_shard({"layer": case["layer"], "seed": case["seed"], "nwork": case["w"] + 1,
                         "reps": 2, "combos": 10, "budget_s": 600}, rec)
